@@ -88,6 +88,11 @@ let () = iter_lines (fun l ->
   | ["pemchk"; ty; h] ->
       let b = bytes_of_hex h in
       show (pem_check_ok b (lenN b) (n_of_int (int_of_string ty))) (fun r -> match r with None -> "no" | Some (s, e) -> Printf.sprintf "ok s=%s e=%s" (str_n s) (str_n e))
+  | ["pempw"; pw; h] ->
+      let b = bytes_of_hex h in
+      show (pem_decode_pw (pw <> "NULL") b (lenN b)) (fun ((k, iv), out) ->
+        let k = int_of_n k in
+        Printf.sprintf "ok k=%d iv=%s len=%d d=%s" k (hex_of_bytes iv) (List.length out) (if k = 0 then hex_of_bytes out else "?"))
   | ["pemdec"; h] -> let b = bytes_of_hex h in show (pem_decode b (lenN b)) (fun o -> "ok " ^ hex_of_bytes o)
   | ["pemlist"; h] ->
       let b = bytes_of_hex h in
